@@ -107,6 +107,13 @@ func (rp *Replica) Execute(src *block.Block, coldCache bool) (*block.Block, *Exe
 		return nil, res
 	}
 	nb.SetPreviousBlock(prev)
+	// node-local chain facts are not what is varied here: the replica has the same latest
+	// finalized magic block as the primary (workloads may move the primary's, e.g. govvc)
+	if lfmb := rp.W.C.GetLatestFinalizedMagicBlock(rp.W.Ctx); lfmb != nil {
+		if cur := rp.C.GetLatestFinalizedMagicBlock(rp.W.Ctx); cur == nil || cur.Hash != lfmb.Hash || cur.MagicBlock != lfmb.MagicBlock {
+			rp.C.SetLatestFinalizedMagicBlock(lfmb)
+		}
+	}
 	if coldCache {
 		rp.C.SetupStateCache()
 	}
